@@ -78,6 +78,12 @@ def gen_password(t, flavour):
             k = t.draw(len(base) + 1)
             base = base[:k] + zoo_char(t) + base[k:]
         return base
+    if flavour.get("tricky") and t.chance(1, 8):
+        # a piece of text twice in one password, the first time inside a longer keyboard run the detector rejects
+        # (runs starting with e / y / ty / 123, ending in 123, or containing a word)
+        walk = t.choice(WALKS + ["3wsx", "9o0p", "sw21", "4rfv", "xsw2"])
+        first = t.choice(["e", "y", "ty", "123", "t", "pop", ""]) + walk + t.choice(["", "123", "e"])
+        return first + t.choice(["!", "X ", "-", "7", ""]) + walk + t.choice(["", "1", "!"])
     if flavour.get("tricky") and t.chance(1, 3):
         # adversarial mode: many short trigger fragments glued together, so patterns touch, overlap and repeat
         return "".join(t.choice(TRICKY_BITS) for _ in range(t.between(2, 6)))
